@@ -10,6 +10,7 @@ from .sxstr import SymStr, SymChar, _items
 from .stream import SymBytes, SymByte, sym_pack, sym_unpack, join_bytes
 
 COUNTS = {}
+OVERRIDES = {}        # function object -> replacement, applied to every call (environment models such as open())
 EXTRA = []           # additional models registered by checks: fn(f, a, k) -> (handled, result)
 _SYM = (SymInt, SymBool, SymStr, SymChar, SymBytes)
 
@@ -92,6 +93,13 @@ def sx_call(f, *a, **k):
         if q is not None:
             key = mod + ':' + q
             COUNTS[key] = COUNTS.get(key, 0) + 1
+    if OVERRIDES:
+        try:
+            r = OVERRIDES.get(f)
+        except TypeError:
+            r = None
+        if r is not None:
+            return r(*a, **k)
     s = getattr(f, '__self__', None)
     if s.__class__ is bytes and getattr(f, '__name__', '') == 'join' and len(a) == 1:
         parts = list(a[0])              # a generator may yield symbolic bytes
